@@ -9,8 +9,11 @@
 (* qual -- see drv_linsys.c.                                               *)
 (*   MustBeSingular (structural rank < n, or exactly duplicated rows):     *)
 (*     conversion      => output non-finite or astronomically large        *)
-(*     apply a/b, add a/b, solve => refused through the documented error   *)
-(*                        path: -1, EDOM, one MATH callback                *)
+(*     apply a/b, add a/b, solve with a missing row / column / unknown or  *)
+(*     too few equations => refused through the documented error path:     *)
+(*     -1, EDOM, one MATH callback; exactly duplicated rows: not asserted  *)
+(*     (a consistent singular system has finite solutions and whether the  *)
+(*     pivot is exactly zero depends on the elimination's rounding)        *)
 (*   GenericallyRegular and qualified (independent condition estimate of   *)
 (*   the unscaled system <= 1e6):                                          *)
 (*     result finite, residual within 1e3 n eps (|A||x|+|b|) in the        *)
@@ -30,8 +33,7 @@ Singular(ev) ==
     Class(Unflat(ev.p, ev.n)) = "MustBeSingular" \/ Duplicated(ev)
 
 (* the elimination certainly meets an exactly zero pivot *)
-ExactlySingular(ev) ==
-    MissingLine(Unflat(ev.p, ev.n)) \/ Duplicated(ev)
+ExactlySingular(ev) == MissingLine(Unflat(ev.p, ev.n))
 
 MathRefusal(ev, name) ==
     /\ Explain(ev.ok = 0, <<l, name, "ok", "refused (singular)">>)
@@ -81,24 +83,26 @@ TSolve ==
         c  == TallClass(ev.m, ev.n, ev.rowmap, z)
     IN /\ ev.e = "Solve"
        /\ Explain(ev.stage = 2, <<l, "Solve", "stage", "standards accepted">>)
-       /\ IF c = "MustBeSingular"
+       /\ IF TallMustRefuse(ev.m, ev.n, ev.rowmap, z)
           THEN MathRefusal(ev, "Solve")
-          ELSE /\ Explain(ev.ok = 1 /\ ev.cb = 0, <<l, "Solve", "ok", 1>>)
+          ELSE c = "GenericallyRegular" =>
+               /\ Explain(ev.ok = 1 /\ ev.cb = 0, <<l, "Solve", "ok", 1>>)
                /\ Explain(ev.rec = 1, <<l, "Solve", "rec", 1>>)
 
-(* row-scaled receivers: applying the calibration reproduces the           *)
-(* measurement.  Demanded for the unscaled instrument always, and under    *)
-(* row scaling when the calibration was exactly determined (elimination    *)
-(* with scaled pivoting); for over-determined (least-squares) set-ups the  *)
-(* minimiser itself depends on the row weights and invariance under row    *)
-(* scaling is not asserted (the loss is counted and reported).             *)
+(* multi-port calibrations solved from exact data (exactly determined and  *)
+(* over-determined standard sets, standards added in either order):        *)
+(* applying them reproduces the measurement.  With badly scaled receiver   *)
+(* gains (rows of every measurement scaled by 2^-28 .. 2^28) this is       *)
+(* demanded when the set-up was exactly determined (elimination with       *)
+(* scaled pivoting); for over-determined (least-squares) set-ups the       *)
+(* internal systems are scaled by rows and columns and nothing is asserted *)
+(* (the observed loss is counted and reported).                            *)
 TApplyM ==
     LET ev == TraceLog[l]
         unscaled == \A i \in 1..Len(ev.sc) : ev.sc[i] = 0
-        asserted == unscaled \/ ev.det = "exact"
     IN /\ ev.e = "ApplyM"
-       /\ Explain(unscaled => ev.setup = 1, <<l, "ApplyM", "setup", 1>>)
-       /\ (ev.setup = 1 /\ asserted) =>
+       /\ (unscaled \/ ev.det = "exact") =>
+             /\ Explain(ev.setup = 1, <<l, "ApplyM", "setup", 1>>)
              /\ Explain(ev.ok = 1 /\ ev.cb = 0, <<l, "ApplyM", "ok", 1>>)
              /\ Explain(ev.fin = 1, <<l, "ApplyM", "fin", 1>>)
              /\ Explain(ev.res = 1, <<l, "ApplyM", "res", 1>>)
